@@ -41,7 +41,7 @@ def gen(tier, seed):
                 out.append((f"{sname}:{w1},{w2},{w3}", [(ST, w1), (ST, w2), (ST, w3)]))
     rng = random.Random(seed)
     mixed = []
-    for (s1, T1), (s2, T2) in itertools.product(STORAGE[:8] + STORAGE[9:10], repeat=2):
+    for (s1, T1), (s2, T2) in itertools.product(STORAGE[:10], repeat=2):
         if s1 == s2:
             continue
         w1 = rng.choice([w for w in WIDTHS if w <= nbits(T1)])
